@@ -16,7 +16,14 @@ class CheckConditionError(Exception):
 
 
 class UnspecifiedError(Exception):
-    pass
+    """the command ended without sense data; like newer bindings the error carries what the driver reported: the status byte and the
+    host / driver status (a transport-level failure - time-out, no connect - has status 0 and a non-zero host status)"""
+
+    def __init__(self, text, status=None, host_status=0, driver_status=0):
+        Exception.__init__(self, text)
+        self.status = status
+        self.host_status = host_status
+        self.driver_status = driver_status
 
 
 def execute(file, cdb, data_out, data_in, max_sense_data_length=32, return_sense_buffer=False):
@@ -39,6 +46,9 @@ def execute(file, cdb, data_out, data_in, max_sense_data_length=32, return_sense
     if tgt is None:
         raise UnspecifiedError("no target behind inode %d" % st.st_ino)
     status, sense = tgt.command(cdb, data_out, data_in, "sgio")
+    if status == "HOSTERR":
+        # the command never completed on the transport (DID_TIME_OUT): no status from the target, no sense
+        raise UnspecifiedError("host_status 0x03 (DID_TIME_OUT)", status=0, host_status=3)
     if status == 0x00:
         # the residual count of the transfer (SG_IO's resid): what the device did not fill of the data-in buffer
         resid = 0
@@ -47,4 +57,4 @@ def execute(file, cdb, data_out, data_in, max_sense_data_length=32, return_sense
         return (resid, b"") if return_sense_buffer else resid
     if status == 0x02:
         raise CheckConditionError(bytes(sense) if sense is not None else b"")
-    raise UnspecifiedError("status %#04x" % status)
+    raise UnspecifiedError("status %#04x" % status, status=status)
